@@ -120,18 +120,19 @@ def gamount(s):
 
 
 def gfcfg(flags):
-    return "{| d_self_transfer := %s; d_neg_amount := %s |}" % (gbool("self_transfer" in flags), gbool("neg_amount" in flags))
+    return "{| d_self_transfer := %s; d_neg_amount := %s; d_fee_after_body := %s |}" % (
+        gbool("self_transfer" in flags), gbool("neg_amount" in flags), gbool("fee_after_body" in flags))
 
 
-XFLAGS = ["raw_add", "stub_promoted", "ibtp_no_revert", "failed_events", "stale_changer", "fee_after_body"]
-FFLAGS = ["self_transfer", "neg_amount"]
+XFLAGS = ["raw_add", "stub_promoted", "ibtp_no_revert", "failed_events", "stale_changer"]
+FFLAGS = ["self_transfer", "neg_amount", "fee_after_body"]
 
 
 def gxcfg(flags):
     return ("{| d_raw_add := %s; d_stub_promoted := %s; d_ibtp_no_revert := %s; d_failed_events := %s; "
-            "d_stale_changer := %s; d_fee_after_body := %s; x_fees := %s |}") % (
+            "d_stale_changer := %s; x_fees := %s |}") % (
         gbool("raw_add" in flags), gbool("stub_promoted" in flags), gbool("ibtp_no_revert" in flags),
-        gbool("failed_events" in flags), gbool("stale_changer" in flags), gbool("fee_after_body" in flags), gfcfg(flags))
+        gbool("failed_events" in flags), gbool("stale_changer" in flags), gfcfg(flags))
 
 
 def genv(admins, price, genesis):
